@@ -17,6 +17,8 @@
 //         thread-local exclusive resources — are recycled during the run.
 #include <babylon/reusable/memory_resource.h>
 
+#include <google/protobuf/arena.h>
+
 #include <string.h>
 
 #include <algorithm>
@@ -38,12 +40,14 @@ using Mono = babylon::MonotonicBufferResource;
 
 enum Kind {
   K_ALLOC, K_BURN, K_OVER, K_REGD, K_CONTAINS, K_VERIFY, K_START, K_JOIN, K_RELEASE, K_MOVE_CTOR, K_MOVE_ASSIGN,
+  K_ARENA_ALLOC, K_ARENA_OBJ,
 };
 const char* const kNames[] = {"allocate", "burn_pages", "burn_oversize", "register_destructor", "contains", "verify",
-                              "start_wave", "join", "release", "move_construct", "move_assign", nullptr};
+                              "start_wave", "join", "release", "move_construct", "move_assign",
+                              "arena_view_allocate", "arena_view_create_object", nullptr};
 
 // allocate() entry points
-enum Variant { V_RUNTIME = 0, V_TEMPLATE = 1, V_PMR = 2, V_NVARIANT = 3 };
+enum Variant { V_RUNTIME = 0, V_TEMPLATE = 1, V_PMR = 2, V_NVARIANT = 3, V_ARENA = 4, V_ARENA_OBJ = 5 };  // V_ARENA*: swiss resource through its protobuf Arena view
 
 constexpr uint64_t OBJ_MAGIC = 0x0b1ec7c0ffee0000ULL;
 struct Obj {
@@ -56,7 +60,7 @@ struct PageRec { int group; bool out; };
 struct UpRec { size_t bytes, align; int group; bool live; };
 struct Blk { size_t n, align; int group; int tid; uint32_t seq; bool obj; int objid; };
 struct ObjRec { uintptr_t p; int group; int destroyed; };
-struct Group { uint64_t user_bytes = 0; uint64_t nreg = 0; uint64_t arrays = 0; };
+struct Group { uint64_t user_bytes = 0; uint64_t nreg = 0; uint64_t arrays = 0; bool arena_view = false; };
 
 struct State;
 State* S;
@@ -110,6 +114,8 @@ struct Res {
   int kind = 0;
   int group = 0;
   bool move_constructed = false;
+  bool arena_view_used = false;  // the protobuf Arena of this (swiss) resource object exists
+  bool arena_stale = false;      // ... and was created by an object this one was moved from
   Excl* ex = nullptr;
   Shared* sh = nullptr;  // kinds 1 and 2
   Swiss* sw = nullptr;   // kind 2
@@ -345,7 +351,7 @@ void* api_alloc(Res& R, size_t bytes, unsigned lg, int variant, bool obj = false
   size_t align = (size_t)1 << lg;
   int me = tid() & 63;
   S->cur_group[me] = R.group;
-  const char* site = variant == V_TEMPLATE ? "allocate<A>" : variant == V_PMR ? "pmr-allocate" : "allocate";
+  const char* site = variant == V_TEMPLATE ? "allocate<A>" : variant == V_PMR ? "pmr-allocate" : variant == V_ARENA ? "arena-view-CreateArray" : variant == V_ARENA_OBJ ? "arena-view-Create" : "allocate";
   set_crash_site(site);
   // placement of a new page array (probe only; reads private state)
   bool inspect = variant != V_TEMPLATE;
@@ -369,6 +375,18 @@ void* api_alloc(Res& R, size_t bytes, unsigned lg, int variant, bool obj = false
     }
   } else if (variant == V_PMR) {
     p = static_cast<std::pmr::memory_resource*>(R.base())->allocate(bytes, align);
+  } else if (variant == V_ARENA || variant == V_ARENA_OBJ) {
+    // the swiss resource seen as a google::protobuf::Arena (created lazily on
+    // first use, possibly by several threads at once)
+    S->groups[(size_t)R.group].arena_view = true;
+    // Listed defect (DESIGN §9.2 K5): an Arena created before the resource was
+    // moved keeps the address of the moved-from object; whatever goes wrong
+    // inside such a call is attributed to it.
+    if (R.arena_stale) { probe("arena_view_used_after_move"); fail_context("move-dangling-this", "arena-view-after-move"); }
+    else R.arena_view_used = true;
+    ::google::protobuf::Arena& a = *R.sw;
+    if (variant == V_ARENA) { if (bytes == 0) bytes = 1; p = ::google::protobuf::Arena::CreateArray<char>(&a, bytes); align = 1; }
+    else { p = ::google::protobuf::Arena::Create<Obj>(&a); align = alignof(Obj); }
   } else {
     switch (R.kind) {
       case 0: p = R.ex->allocate(bytes, align); break;
@@ -385,7 +403,20 @@ void* api_alloc(Res& R, size_t bytes, unsigned lg, int variant, bool obj = false
     else probe("page_array_in_extra_page");
   }
   note_block(R, p, bytes, align, obj, objid, site);
+  fail_context(nullptr, nullptr);
   return p;
+}
+
+// an object with a destructor created through the Arena view: the arena's
+// clean-up list must end up as a registered destructor of the resource
+void api_arena_object(Res& R) {
+  int id = (int)S->objs.size();
+  S->objs.push_back(ObjRec{0, R.group, 0});
+  Obj* o = reinterpret_cast<Obj*>(api_alloc(R, sizeof(Obj), 3, V_ARENA_OBJ, true, id));
+  o->magic = OBJ_MAGIC ^ (uint64_t)id;
+  o->id = (uint64_t)id;
+  S->objs[(size_t)id].p = (uintptr_t)o;
+  S->groups[(size_t)R.group].nreg++;
 }
 
 void api_register(Res& R, int variant) {
@@ -477,7 +508,8 @@ void verify_all(const char* site, Res* extra = nullptr) {
   size_t dta = sizeof(Excl::DestroyTaskArray);
   // every destroy-task array the resource set up for itself is one allocate<8>(sizeof(DestroyTaskArray))
   size_t want = g.user_bytes + dta * g.arrays;
-  if (used != want)
+  // (the Arena object and its clean-up bookkeeping are the resource's own allocations: lower bound only)
+  if (g.arena_view ? used < want : used != want)
     fail("accounting", "space_used", "space_used() = %zu, expected %zu (%llu requested bytes, %llu registered destructors in %llu destroy-task arrays)", used, want, (unsigned long long)g.user_bytes, (unsigned long long)g.nreg, (unsigned long long)g.arrays);
   register_slots(*S->cur);
 }
@@ -576,6 +608,7 @@ void do_release(Res& R, int how) {
   for (uintptr_t a : sample)
     if (api_contains(R, (const void*)a)) fail("contains", "after-release", "contains(%#lx) is still true after release()", (unsigned long)a);
   R.group = new_group();
+  R.arena_view_used = false; R.arena_stale = false;  // release() drops the Arena; the next use creates a new one
   probe("release_cycles");
 }
 
@@ -631,6 +664,7 @@ void do_move_construct(int flags) {
   Res* src = S->cur;
   Res* dst = new Res();
   dst->kind = src->kind; dst->group = src->group; dst->move_constructed = true;
+  dst->arena_stale = src->arena_view_used || src->arena_stale;
   set_crash_site("move-construct");
   switch (src->kind) {
     case 0: dst->ex = new Excl(std::move(*src->ex)); break;
@@ -677,6 +711,7 @@ void do_move_assign(int pre, int flags) {
   set_crash_site(nullptr);
   S->releasing = -1;
   dst->group = G; src->group = L;
+  dst->arena_stale = src->arena_view_used || src->arena_stale; dst->arena_view_used = false;
   bool l_released = S->pages.returned != ret0;
   for (auto& o : S->objs) if (o.group == L && o.destroyed) l_released = true;
   if (l_released) { kill_blocks(L); check_group_released(L, false, "move assignment (which released the target's previous contents)"); }
@@ -738,6 +773,15 @@ void do_alloc_op(Res& R, const Op& op) {
       for (int i = 0; i < n; i++) api_register(R, (int)(op.b + i));
       break;
     }
+    case K_ARENA_ALLOC:
+      if (R.kind == 2) api_alloc(R, (size_t)std::max<int64_t>(1, std::min<int64_t>(op.a, 20000)), 0, V_ARENA);
+      break;
+    case K_ARENA_OBJ: {
+      if (R.kind != 2) break;
+      int n = (int)std::max<int64_t>(1, std::min<int64_t>(op.a, 6));
+      for (int i = 0; i < n; i++) api_arena_object(R);
+      break;
+    }
   }
 }
 
@@ -775,7 +819,7 @@ void run(const Plan& p) {
   for (auto& op : p.threads[0]) {
     OpScope scope(op.id);
     switch (op.kind) {
-      case K_ALLOC: case K_BURN: case K_OVER: case K_REGD:
+      case K_ALLOC: case K_BURN: case K_OVER: case K_REGD: case K_ARENA_ALLOC: case K_ARENA_OBJ:
         do_alloc_op(*s.cur, op);
         break;
       case K_CONTAINS:
@@ -862,9 +906,13 @@ void gen(Rng& r, Plan& p, const GenParams& gp) {
     if (x < 19) return lgP + 1;
     return 13;
   };
+  bool arena_view = kind == 2 && r.chance(1, 2);  // this run also uses the swiss resource as a protobuf Arena
   auto add_alloc_op = [&](size_t t, int64_t wave) {
     uint64_t x = r.below(100);
-    if (x < 58) {
+    if (arena_view && r.chance(1, 3)) {
+      if (r.chance(2, 3)) add(t, K_ARENA_ALLOC, std::max<int64_t>(1, gen_bytes()), 0, wave);
+      else add(t, K_ARENA_OBJ, r.range(1, 4), 0, wave);
+    } else if (x < 58) {
       int variant = (int)r.below(V_NVARIANT);
       int64_t lg = gen_align();
       if (variant == V_TEMPLATE) { static const int64_t tl[] = {0, 3, 4, 6, 8, 12}; lg = tl[r.below(6)]; }
